@@ -359,6 +359,12 @@ func runC04(r *core.Run) {
 		other := coins[(ci+copies)%len(coins)]
 		helper := group[1] // same keyset, same denomination: a valid companion
 		muts := c04Mutants(rng, base.p, base.out, base.sig, other.p, ksIds, thorough)
+		// the genuine proof is first shown in a request that verifies it and is then refused for another
+		// reason (outputs on an unknown keyset), so that whatever the mint remembers about a proof it has
+		// seen verified is in place when the mutants of that very proof arrive
+		if _, err := env.Swap(cashu.Proofs{base.p}, client.BMs(client.Outputs(rng, "00"+client.RandHex(rng, 7), client.Split(base.p.Amount)))); err == nil {
+			r.Violate("accepted:outputs-on-unknown-keyset", "a swap with outputs on an unknown keyset was accepted", fmt.Sprintf("ks%d/d%d/prelude", base.ks, base.p.Amount), nil)
+		}
 		for mi, m := range muts {
 			positions := []string{"alone"}
 			if thorough || mi%3 == 0 {
